@@ -766,6 +766,17 @@ func (bal *Balancer) balanceBlock(blkid arvados.SizedDigest, blk *BlockState) ba
 		}
 	}
 
+	// A desired storage class that is not offered by any mount
+	// was not considered at all above. Nothing we could do here
+	// would satisfy it, so (as documented) leave the block's
+	// replicas in place instead of treating the class as
+	// "desired=0".
+	for class, desired := range blk.Desired {
+		if desired > 0 && bal.mountsByClass[class] == nil {
+			underreplicated = true
+		}
+	}
+
 	// TODO: If multiple replicas are trashable, prefer the oldest
 	// replica that doesn't have a timestamp collision with
 	// others.
